@@ -304,6 +304,34 @@ func init() {
 		"(*strings.Builder).Grow":  nop,
 		"(*strings.Builder).Reset": func(fr *frame, a []value) value { *fr.i.builder(a[0]) = nil; return nil },
 
+		// internal/bytealg (assembly): concrete arguments only
+		"internal/bytealg.IndexByteString": func(fr *frame, a []value) value {
+			return strings.IndexByte(mustStr("bytealg.IndexByteString", a[0]), a[1].(byte))
+		},
+		"internal/bytealg.IndexString": func(fr *frame, a []value) value {
+			return strings.Index(mustStr("bytealg.IndexString", a[0]), mustStr("bytealg.IndexString", a[1]))
+		},
+		"internal/bytealg.CountString": func(fr *frame, a []value) value {
+			return strings.Count(mustStr("bytealg.CountString", a[0]), string([]byte{a[1].(byte)}))
+		},
+		"internal/bytealg.LastIndexByteString": func(fr *frame, a []value) value {
+			return strings.LastIndexByte(mustStr("bytealg.LastIndexByteString", a[0]), a[1].(byte))
+		},
+		"internal/bytealg.IndexByte": func(fr *frame, a []value) value {
+			for k, b := range a[0].([]value) {
+				if b.(byte) == a[1].(byte) {
+					return k
+				}
+			}
+			return -1
+		},
+		"internal/stringslite.IndexByte": func(fr *frame, a []value) value {
+			return strings.IndexByte(mustStr("stringslite.IndexByte", a[0]), a[1].(byte))
+		},
+		"internal/stringslite.Index": func(fr *frame, a []value) value {
+			return strings.Index(mustStr("stringslite.Index", a[0]), mustStr("stringslite.Index", a[1]))
+		},
+
 		// GODEBUG settings: every setting has its default value
 		"(*internal/godebug.Setting).Value":         func(fr *frame, a []value) value { return "" },
 		"(*internal/godebug.Setting).IncNonDefault": nop,
@@ -315,7 +343,7 @@ func init() {
 		"runtime.KeepAlive":  nop,
 		"runtime.GOMAXPROCS": func(fr *frame, a []value) value { return 1 },
 		"runtime.NumCPU":     func(fr *frame, a []value) value { return 1 },
-		"os.Getwd":          func(fr *frame, a []value) value { return tuple{"/cwd", iface{}} },
+		"os.Getwd":           func(fr *frame, a []value) value { return tuple{"/cwd", iface{}} },
 
 		"go/token.IsExported": isExportedIntrinsic,
 		"go/types.isExported": isExportedIntrinsic,
@@ -325,6 +353,14 @@ func init() {
 		"unicode.IsLetter":    runePred(unicode.IsLetter),
 		"unicode.IsDigit":     runePred(unicode.IsDigit),
 		"unicode.IsSpace":     runePred(unicode.IsSpace),
+		"unicode.IsGraphic":   runePred(unicode.IsGraphic),
+		"unicode.IsPrint":     runePred(unicode.IsPrint),
+		"unicode.IsControl":   runePred(unicode.IsControl),
+		"unicode.IsPunct":     runePred(unicode.IsPunct),
+		"unicode.IsSymbol":    runePred(unicode.IsSymbol),
+		"unicode.IsMark":      runePred(unicode.IsMark),
+		"unicode.IsNumber":    runePred(unicode.IsNumber),
+		"unicode.IsTitle":     runePred(unicode.IsTitle),
 		"unicode.ToUpper":     func(fr *frame, a []value) value { return unicode.ToUpper(a[0].(rune)) },
 		"unicode.ToLower":     func(fr *frame, a []value) value { return unicode.ToLower(a[0].(rune)) },
 		"unicode/utf8.DecodeRuneInString": func(fr *frame, a []value) value {
